@@ -52,6 +52,7 @@ func runDaemon(in *bufio.Scanner, w *bufio.Writer) {
 		}
 		cmd := exec.Command(os.Args[0], "run")
 		cmd.Env = append(os.Environ(), "VERIF_DAEMON_CHILD=1")
+		cmd.SysProcAttr = &syscall.SysProcAttr{Pdeathsig: syscall.SIGKILL} // no orphans when the run is killed on a time-out
 		cmd.Stdin = strings.NewReader(strings.Join(cur, "\n") + "\n")
 		var out bytes.Buffer
 		cmd.Stdout = &out
@@ -294,6 +295,7 @@ func runDaemonCase(in *bufio.Scanner, w *bufio.Writer) {
 </busconfig>`
 			os.WriteFile(filepath.Join(tmp, "bus.conf"), []byte(conf), 0644)
 			busProc = exec.Command(bd, "--config-file="+filepath.Join(tmp, "bus.conf"), "--nofork")
+			busProc.SysProcAttr = &syscall.SysProcAttr{Pdeathsig: syscall.SIGKILL}
 			if err := busProc.Start(); err != nil {
 				busProc = nil
 				fmt.Fprintln(w, "< harness-error dbus-daemon", err)
